@@ -288,7 +288,14 @@ impl NsGen {
             _ => self.alpha(rng),
         };
         let mut dst = Self::decorate(rng, Self::join(&pre, &name));
-        if rng.chance(3, 5) {
+        let keep_name = d2 != d && rng.chance(1, 3) || rng.chance(1, 12);
+        if keep_name {
+            // a pure move: the entry keeps its name (its alias must be made unique in the destination)
+            let leaf = last_component(&src).to_string();
+            if !leaf.is_empty() && leaf != "." && leaf != ".." {
+                dst = Self::join(&pre, &leaf);
+            }
+        } else if rng.chance(3, 5) {
             // prefer a destination that is free
             for _ in 0..3 {
                 if !matches!(self.cx.resolve(&base2, &dst), Resolved::Found { .. }) {
